@@ -103,6 +103,11 @@ def sweep_mul(ctx, c, reps):
                         continue
                     for k in ks:
                         _mulcase(ctx, c, P, k, "table", rep, order, o, "l" if k % 2 else "r", True, fresh_obj=g)
+                    # a second table object for the same point that declares a larger (still annihilating) order
+                    if rep == "J1":
+                        g8 = EU.build(cf, c, P, rep, order=8 * order, generator=True)
+                        for k in (7 * order + 5, 15 * order + 5, 9 * order - 1, -3, 16 * order + 1, 12 * order + 7):
+                            _mulcase(ctx, c, P, k, "table-larger-declared-order", rep, 8 * order, o, "r", False, fresh_obj=g8)
                     # -g after g's table exists: must denote -P in every later use
                     try:
                         ng = -g
@@ -164,6 +169,8 @@ def _muladd_case(ctx, c, P, Q, a, b, kind_p, kind_q, order, ordP, ordQ, enum):
 
 
 def _mk_operand(cf, c, P, kind, order):
+    if kind == "plain-noorder":
+        return EU.build(cf, c, P, "J1", order=None)
     if kind == "plain":
         return EU.build(cf, c, P, "J1", order=order)
     if kind == "z2":
@@ -197,7 +204,8 @@ def sweep_muladd(ctx, c, full_b, pmod=1, pres=0):
             combos = [("plain", "plain", None), ("plain", "plain", L), ("z2", "neg", None)]
             if Q is not None:
                 combos += [("gen", "gen", L), ("gen", "plain", L), ("plain", "legacy", None), ("plain", "gen", L),
-                           ("genz", "plain", L), ("plain", "genz", L), ("genz", "genz", L)]
+                           ("genz", "plain", L), ("plain", "genz", L), ("genz", "genz", L),
+                           ("plain-noorder", "gen", L), ("plain-noorder", "genz", L), ("gen", "plain-noorder", L)]
             for kp, kq, order in combos:
                 for a in arange:
                     for b in brange:
